@@ -14,9 +14,13 @@ WORK = os.path.join(ROOT, ".work")
 KANI_FLAGS = ["-Z", "function-contracts", "-Z", "stubbing"]
 
 
+WS_TAG = ""     # "" = quick tier; the thorough tier builds in its own workspace so that a long run is not
+                # disturbed by quick checks started meanwhile (their `cargo kani` would rebuild the artifacts)
+
+
 def ws_dir():
     h = hashlib.sha256(REPO.encode()).hexdigest()[:8]
-    return os.path.join(WORK, "kani-ws-" + h)
+    return os.path.join(WORK, "kani-ws-" + h + WS_TAG)
 
 
 def env():
@@ -121,6 +125,20 @@ def _blank():
 
 
 def run(names, jobs=8, timeout=3600):
+    import fcntl
+    os.makedirs(WORK, exist_ok=True)
+    # one cargo-kani at a time per workspace: a second invocation would rebuild / overwrite the goto binaries the
+    # first one is still feeding to cbmc
+    lockf = open(os.path.join(WORK, "kani-ws%s.lock" % WS_TAG), "w")
+    fcntl.flock(lockf, fcntl.LOCK_EX)
+    try:
+        return _run_locked(names, jobs, timeout)
+    finally:
+        fcntl.flock(lockf, fcntl.LOCK_UN)
+        lockf.close()
+
+
+def _run_locked(names, jobs, timeout):
     d, log = prepare()
     cmd = ["cargo", "kani"] + KANI_FLAGS + ["--output-format", "terse", "-j", str(jobs)]
     for n in names:
